@@ -12,6 +12,7 @@ import DateutilVerif.Proofs.ParserGenSmall
 import DateutilVerif.Proofs.ParserGenHms
 import DateutilVerif.Proofs.ParserGenNum
 import DateutilVerif.Proofs.ParserGenStep
+import DateutilVerif.Proofs.ParserGenNaive
 
 namespace ParserGen
 open PM Py
@@ -143,6 +144,20 @@ theorem gen_eq_model_parse_numeric_token (cls : Char → CClass) (info : Info) (
     Gen.P.parseNumericToken cls info tokens idx ymd res fuzzy =
       (PM.parseNumericToken cls info fuzzy tokens idx ymd res).map (fun r => (idx + r.1, r.2.1, r.2.2)) :=
   PGen.parseNumericToken_eq cls info fuzzy tokens idx ymd res
+
+/-! ### `_build_naive` -/
+
+/-- `parser._build_naive(res, default)`: the `repl` dict (loop over the seven field names), the default's day clipped to
+    the length of the resulting month when the text has no day, `default.replace(**repl)`, and the forward shift to a bare
+    weekday (`res.weekday is not None and not res.day`) — for every result record and default.  `datetime.replace` and
+    `+ relativedelta(weekday=k)` are named primitives (`PM.dtReplace`, `PM.weekdayShift`; the latter is C03's subject). -/
+theorem gen_eq_model_build_naive (info : Info) (res : Res) (dflt : DT) :
+    Gen.P.buildNaive info res dflt = PM.buildNaive res dflt := PGen.buildNaive_eq info res dflt
+
+example : Gen.P.buildNaive (Info.default false false 2026 2000) { month := some 2 } ⟨2003, 1, 31, 0, 0, 0, 0⟩
+    = .ok ⟨2003, 2, 28, 0, 0, 0, 0⟩ := by decide
+example : Gen.P.buildNaive (Info.default false false 2026 2000) { weekday := some 0 } ⟨2003, 9, 25, 0, 0, 0, 0⟩
+    = .ok ⟨2003, 9, 29, 0, 0, 0, 0⟩ := by decide
 
 /-! ### the token loop of `parser._parse` -/
 
